@@ -86,6 +86,7 @@ def _work(job):
         out["unreached"] = list(getattr(eng, "unreached", []))
         out["truncated"] = eng.truncated
         out["contracts_applied"] = sorted(eng.contracts_applied)
+        out["notes"] = list(eng.notes)
         out["source_sha"] = reg.repo.func_source_hash(qual)
         if getattr(reg, "regex_facts", None) is not None:
             out["regex_facts"] = reg.regex_facts.log
@@ -164,6 +165,9 @@ def report(ck, results, select=None, replayer=None, rename=None, also_used=()):
     for res in results:
         q = res.get("label", res["qual"])
         ck.under_contract(res["qual"], role="body verified against its sidecar contract (%d paths)%s" % (res["paths"], (" as role " + q.split("@")[1]) if "@" in q else ""))
+        for nt in res.get("notes", []):
+            if nt not in ck.notes:
+                ck.notes.append(nt)
         if res["error"]:
             ck.ob("%s/verification" % q, "undecided", backend="pyvc", detail={"reason": res["error"]})
             continue
